@@ -206,7 +206,7 @@ func C11(r *drv.Run) {
 		nrand = 300000
 	}
 	nl := len(c11Leaves())
-	r.Rule = fmt.Sprintf("exhaustive: every unary operator x %d leaves and every binary operator x %d x %d leaves", nl, nl, nl) + " (string/number/bool literals at boundary values '', '0', '7', '12', 'abc', '+3', ' 4', '010', '0x1F', '1_000', '1e3', '3.5', an overflowing digit string, the largest and smallest 64-bit integers as strings and as numbers, number literals beyond the signed 64-bit range (value 0), names differing from assigned variables and built-ins only in letter case (unassigned: the empty string), 0, 1, 2, -1, 7, 12, true, false, and variables bound by set and by a capture) that the documented table types; plus seeded random well-typed trees of depth <= 3, each rendered with minimal AND with full parentheses (precedence and associativity) and with its keywords (true false not head tail and or) in UPPER or Capitalised case. Observation: a transform returning the expression (booleans through if/else) and a predicate returning it (match / no match). Oracle: evaluator transcribed from the documentation tables (harness/proc). Non-trivial = every expression whose observed value equalled the expected one is a distinct checked cell; distinct by expression text."
+	r.Rule = fmt.Sprintf("exhaustive: every unary operator x %d leaves and every binary operator x %d x %d leaves", nl, nl, nl) + " (string/number/bool literals at boundary values '', '0', '7', '12', 'abc', '+3', ' 4', '010', '0x1F', '1_000', '1e3', '3.5', an overflowing digit string, the largest and smallest 64-bit integers as strings and as numbers, number literals beyond the signed 64-bit range (value 0), names differing from assigned variables and built-ins only in letter case (unassigned: the empty string), 0, 1, 2, -1, 7, 12, true, false, and variables bound by set and by a capture) that the documented table types; plus chains of 9..13 operands joined by + with parenthesised groups on right-hand sides; plus seeded random well-typed trees of depth <= 3, each rendered with minimal AND with full parentheses (precedence and associativity) and with its keywords (true false not head tail and or) in UPPER or Capitalised case. Observation: a transform returning the expression (booleans through if/else) and a predicate returning it (match / no match). Oracle: evaluator transcribed from the documentation tables (harness/proc). Non-trivial = every expression whose observed value equalled the expected one is a distinct checked cell; distinct by expression text."
 	r.Assumptions = []string{
 		"division and modulo by zero are not generated (no documented result; see known finding K1 under C09)",
 		"left open by the documentation and always parenthesised explicitly: unary operators over binary operands, ==/!= mixed with </>/<=/>= in one chain",
@@ -292,6 +292,27 @@ func C11(r *drv.Run) {
 			}
 			if _, ok := proc.Eval(e, envA); !ok || !okAll {
 				continue
+			}
+			if len(ex) == 0 && i%3 == 0 {
+				// a long chain: 8..12 operands joined by +, now and then a parenthesised group (a sum of its own, or
+				// another operator) on a right-hand side; a chain is evaluated pair by pair from the left
+				var chain proc.Expr = pg.typed([]proc.Type{proc.TStr, proc.TNum}[rng.Intn(2)], 0)
+				for k := 8 + rng.Intn(5); k > 0; k-- {
+					var rhs proc.Expr = pg.typed([]proc.Type{proc.TStr, proc.TNum}[rng.Intn(2)], 0)
+					if rng.Chance(1, 3) {
+						rhs = proc.EBin{Op: []string{"+", "+", "-", "*"}[rng.Intn(4)], L: pg.typed(proc.TNum, 0), R: pg.typed([]proc.Type{proc.TStr, proc.TNum}[rng.Intn(2)], 0)}
+					}
+					chain = proc.EBin{Op: "+", L: chain, R: rhs}
+				}
+				okc := proc.TypeOf(chain, c11TypeEnv) != proc.TErr
+				for _, env := range []proc.Env{envA, envB, c11Env("a")} {
+					if _, ok := proc.Eval(chain, env); !ok {
+						okc = false
+					}
+				}
+				if okc {
+					ex = append(ex, c11Expr{chain, proc.Render(chain, false), "long-plus-chain"})
+				}
 			}
 			ex = append(ex, c11Expr{e, proc.Render(e, false), "tree-minimal-parens"})
 			ex = append(ex, c11Expr{e, proc.Render(e, true), "tree-full-parens"})
